@@ -123,6 +123,18 @@ class C19(CheckBase):
                         o.attrs[t] = bytes.fromhex(hx)[:n]
                 m.objs[name] = o
                 m.hmap[r["h"]] = name
+        # one more session object of the late session that came into being as a COPY (of the public token key k1): owned by the copying session like any other
+        src = next(h for h, n in m.hmap.items() if n == "k1")
+        r = W.ok(p.CopyObject(late, src, [(C.CKA_LABEL, b"late-copy"), (C.CKA_ID, b"id7"), (C.CKA_TOKEN, False)]), "copy into the late session")
+        o = Obj("l3", "A", 0, 0, late)
+        got = p.GetAttributeValue(late, r["h"], [(t, Null(0)) for t in TATTRS])
+        want = [(t, n) for (t, n, _x) in got["attrs"] if n >= 0]
+        got2 = p.GetAttributeValue(late, r["h"], [(t, Out(n)) for t, n in want])
+        for (t, n, hx, _w) in got2["attrs"]:
+            if n >= 0:
+                o.attrs[t] = bytes.fromhex(hx)[:n]
+        m.objs["l3"] = o
+        m.hmap[r["h"]] = "l3"
         idents = [o.ident() for o in m.objs.values() if o.tok == "A"]
         assert len(set(idents)) == len(idents), "population identities must be distinct"
         return m
